@@ -228,6 +228,12 @@ func corruptions() []corruption {
 	add("LastCommit=nil", 1, func(w *world, b *types.Block) bool { b.LastCommit = nil; return true })
 	add("Header=nil", 1, func(w *world, b *types.Block) bool { b.Header = nil; return true })
 	// data section
+	add("Data.nil-tx-entry(counts consistent)", 1, func(w *world, b *types.Block) bool {
+		b.Data.Txs = append(b.Data.Txs, nil)
+		b.NumTxs++
+		b.TotalTxs++
+		return true
+	})
 	add("Data.extra-tx(NumTxs unchanged)", 1, func(w *world, b *types.Block) bool {
 		b.Data.Txs = append(b.Data.Txs, mkTx(0))
 		rederive(b)
